@@ -577,6 +577,139 @@ def r17i(rep, F):
     rep.add('R17i', f.name, 'accept-iff-not-broken', bad is None, f.where(acc), bad or 'acceptance = not detection on %d abstract points' % runs)
 
 
+def r17e(rep, F):
+    rep.rule('R17e', 'hybridization (re-instated on the interpretive engine): PathHybridization::recordPath is interpreted on abstract '
+                     'paths of 1..4 states (boost::add_vertex / add_edge recorded, motionCost(a, b) an abstract symbol, combineCosts a '
+                     'formal sum): the graph gains root -> v0 with the identity cost, v(j-1) -> v(j) with motionCost(state j-1, state j) for '
+                     'every j, v(last) -> goal with the identity cost, every vertex carries its own path state, and the cost stored with '
+                     'the path is the fold of those weights -- so every recorded path is a root-to-goal route of exactly its cost and the '
+                     'shortest route cannot be worse than the best recorded path; attemptNewEdge adds a cross edge only under a successful '
+                     'motion check of the two states whose vertices it joins, weighted by their motion cost; computeHybridPath runs the '
+                     'shortest-path search from root_ with the objective\'s compare / combine / infinite / identity and walks prev[] from '
+                     'prev[goal_] until the root')
+    from engine import obj
+    HP = G + 'PathHybridization::'
+    rp = [g for g in F.by_name.get(HP + 'recordPath', []) if g.body]
+    if not rp:
+        raise AnalysisBroken('R17e: PathHybridization::recordPath vanished')
+    rp = rp[0]
+    bad = None
+    runs = 0
+    for nst in (1, 2, 3, 4):
+        states = [('s', j) for j in range(nst)]
+        graph = {'v': 2, 'edges': []}
+        sprop = {}
+
+        def call(it, n, env, graph=graph, sprop=sprop, states=states):
+            c = n.get('callee') or ''
+            short = c.split('::')[-1]
+            a = args(it.fn, n) if n['k'] == 'CXXMemberCallExpr' else n['ch']
+            if c == 'boost::add_vertex':
+                graph['v'] += 1
+                return ('v', graph['v'])
+            if c == 'boost::add_edge':
+                graph['edges'].append((it.ev(a[0], env), it.ev(a[1], env), it.ev(a[2], env)))
+                return ('edge',)
+            if short == 'getSpaceInformation':
+                return it.this['si_']
+            if short == 'getStateCount':
+                return len(states)
+            if short == 'getStates':
+                return states
+            if short == 'identityCost':
+                return ()
+            if short == 'motionCost' and len(a) == 2:
+                return (('mc', it.ev(a[0], env), it.ev(a[1], env)),)
+            if short == 'combineCosts' and len(a) == 2:
+                return tuple(it.ev(a[0], env)) + tuple(it.ev(a[1], env))
+            if c.startswith('std::set::'):
+                if short == 'find':
+                    return ('end',)
+                if short == 'end':
+                    return ('end',)
+                if short == 'insert':
+                    it.this['paths_'].append(it.ev(a[0], env))
+                    return None
+            if n['k'] == 'CXXOperatorCallExpr' and n.get('oop') == '[]' and 'stateProperty_' in it.fn.fp(n['ch'][0]):
+                return sprop.get(it.ev(n['ch'][1], env))
+            if n['k'] == 'CXXOperatorCallExpr' and n.get('oop') in ('!=', '==') and len(n['ch']) == 2:
+                x, y = it.ev(n['ch'][0], env), it.ev(n['ch'][1], env)
+                return (x != y) if n['oop'] == '!=' else (x == y)
+            return NotImplemented
+
+        def construct(it, n, av):
+            ty = n.get('ty') or ''
+            if 'edge_property' in ty or 'property<' in ty:
+                return av[0] if av else ()
+            if 'Cost' in ty:
+                return av[0] if av else ()
+            return NotImplemented
+
+        class HI(obj.ObjInterp):
+            def store(self, lhs, v, env):
+                if lhs is not None and lhs['k'] == 'CXXOperatorCallExpr' and lhs.get('oop') == '[]' and 'stateProperty_' in self.fn.fp(lhs['ch'][0]):
+                    sprop[self.ev(lhs['ch'][1], env)] = v
+                    return
+                return super().store(lhs, v, env)
+        si = obj.Ref(name='si')
+        this = obj.Ref(si_=si, obj_=obj.Ref(name='obj'), g_=('graph',), root_=('v', 1), goal_=('v', 2), paths_=[], stateProperty_=('sprop',), hpath_=None)
+        it = HI(F, rp, this=this, hooks={'call': call, 'construct': construct, 'default': lambda ty: [] if 'vector' in str(ty) or str(ty) == 'vertices_' else None})
+        names = ['%s#%d' % (p_['name'], p_['did']) for p_ in rp.params]
+        it.run(dict(zip(names, [obj.Ref(name='path'), False])))
+        runs += 1
+        vs = [('v', 3 + j) for j in range(nst)]
+        want = [(('v', 1), vs[0], ())] + [(vs[j - 1], vs[j], (('mc', states[j - 1], states[j]),)) for j in range(1, nst)] + [(vs[-1], ('v', 2), ())]
+        msg = None
+        if sorted(map(repr, graph['edges'])) != sorted(map(repr, want)):
+            msg = 'the edges added are %s; a root-to-goal route through the path needs %s' % (graph['edges'], want)
+        elif any(sprop.get(vs[j]) != states[j] for j in range(nst)):
+            msg = 'vertex %d of the path does not carry path state %d' % (next(j for j in range(nst) if sprop.get(vs[j]) != states[j]),) * 1
+        else:
+            pi = this['paths_'][0] if this['paths_'] else None
+            fold = tuple(('mc', states[j - 1], states[j]) for j in range(1, nst))
+            if pi is None:
+                msg = 'the path is not remembered'
+            elif tuple(pi.get('cost_') or ()) != fold:
+                msg = 'the cost stored with the path is %s, the fold of its motion costs is %s' % (pi.get('cost_'), fold)
+            elif list(pi.get('vertices_') or []) != vs:
+                msg = 'the vertex list stored with the path is %s, not %s' % (pi.get('vertices_'), vs)
+        if msg and bad is None:
+            bad = 'for a path of %d state(s): %s' % (nst, msg)
+    rep.add('R17e', rp.name, 'recorded-path-is-a-route-of-its-cost', bad is None, rp.loc, bad or 'chain, weights, states and stored cost on %d abstract paths' % runs)
+    # cross edges
+    ae = [g for g in F.by_name.get(HP + 'attemptNewEdge', []) if g.body][0]
+    adds = {c['id']: c for c in ae.walk() if c.get('callee') == 'boost::add_edge'}
+    if len(adds) != 1:
+        raise AnalysisBroken('R17e: attemptNewEdge no longer adds exactly one edge')
+    cl = P.MotionGuard(ae, lambda fn, node: node['id'] if node.get('id') in adds else None)
+    paths.run_function(ae, cl, F)
+    c = list(adds.values())[0]
+    chk = [x for x in ae.walk() if x.get('callee') in P.CHECK_CALLEES]
+    mc = [x for x in ae.walk() if (x.get('callee') or '').endswith('::motionCost')]
+    a = args(ae, c)
+    pair = [nofp(ae.fp(x)) for x in a[:2]]
+    st_pair = [p_.replace('.vertices_', '.states_') for p_ in pair]
+    ok = bool(cl.at.get(c['id'])) and len(chk) == 1 and [nofp(ae.fp(x)) for x in args(ae, chk[0])[:2]] == st_pair and \
+        len(mc) == 1 and [nofp(ae.fp(x)) for x in args(ae, mc[0])[:2]] == st_pair
+    rep.add('R17e', ae.name, 'cross-edge-validated-and-weighted', ok, ae.where(c),
+            'added under checkMotion of the two joined states, weighted by their motion cost' if ok else
+            'the cross edge joins %s but the motion check / weight is about %s / %s, or the edge is added without a successful check'
+            % (pair, [nofp(ae.fp(x)) for x in args(ae, chk[0])[:2]] if chk else None, [nofp(ae.fp(x)) for x in args(ae, mc[0])[:2]] if mc else None))
+    ch = [g for g in F.by_name.get(HP + 'computeHybridPath', []) if g.body][0]
+    dj = [x for x in ch.walk() if x.get('callee') == 'boost::dijkstra_shortest_paths']
+    fp = ch.fp(dj[0]['id']) if dj else ''
+    lam = [l for l in F.lambdas_of.get(ch.name, [])]
+    lam_fp = ' '.join(l.fp(l.body) for l in lam)
+    ok = bool(dj) and 'this.root_' in ch.fp(args(ch, dj[0])[1]) and 'isCostBetterThan' in lam_fp and 'combineCosts' in lam_fp and \
+        'infiniteCost' in fp and 'identityCost' in fp
+    walk = [x for x in ch.walk() if x['k'] == 'ForStmt']
+    ok2 = len(walk) == 1 and 'this.goal_' in ch.fp(walk[0]['init']) and 'prev' in ch.fp(walk[0]['cond']) and '!=' in ch.fp(walk[0]['cond'])
+    rep.add('R17e', ch.name, 'shortest-route-under-the-objective', ok and ok2, ch.loc,
+            'dijkstra from root_ with the objective\'s compare / combine / inf / zero; extraction walks prev[] from prev[goal_] to the root' if ok and ok2 else
+            'the search is not the shortest-path search from root_ under the objective, or the extraction does not walk prev[] from the goal')
+    rep.require_count('R17e', 'abstract recordPath runs', runs, 4)
+
+
 def run(rep):
     F = facts.load_units(UNITS)
     rep.units.update(UNITS)
@@ -589,3 +722,4 @@ def run(rep):
     r17g(rep, F)
     r17h(rep, F)
     r17i(rep, F)
+    r17e(rep, F)
